@@ -83,6 +83,41 @@ reg('C05', 'exploration',
     'by C06 against what really runs).',
     'DESIGN.md §2 C05')
 
+reg('C09', 'exploration',
+    'invariant hook on the live EnvVarDict (in-process and inside real configure/regenerate '
+    'processes), save/load round-trip monitor incl. synthesised older format versions, and '
+    'end-to-end byte comparison of build files regenerated under perturbed ambient environments',
+    'apply(initial, changes) == current is asserted after every mutator on random operation '
+    'sequences and inside real bfg9000 processes running generated toolchain files; '
+    'Environment.load(save(e)) is compared attribute-wise incl. v4..v16 snapshots derived by '
+    'inverting the documented upgrades; configure under E1 then regenerate/env/run under a hostile '
+    'E2 must give byte-identical build files and exactly the saved variables.',
+    'Trusted: plain-dict model of EnvVarDict; the inverse-upgrade synthesiser (calibrated against '
+    'test/data/environment/v4); stub tool chain.',
+    'DESIGN.md §2 C09')
+reg('C15', 'exploration',
+    'whole-tree snapshot diff around real `make install` / `make uninstall` (real gcc, doppel, '
+    'patchelf traced through wrappers) against an independent placement model; readelf on '
+    'installed ELF files',
+    'Generated projects with every installable kind, random directory= arguments, prefixes with '
+    'spaces and DESTDIR forms; created entries must equal the model set, nothing else may change '
+    '(bystander files planted), RUNPATH must name installed library dirs only, installed programs '
+    'run with the build tree moved away, uninstall removes exactly what install created.',
+    'Trusted: the placement model in vf/gen/c15gen.py (from docs and the project integration '
+    'tests); readelf; only the make back end.',
+    'DESIGN.md §2 C15')
+reg('C20', 'exploration',
+    'reference MS C-runtime argv parser as oracle over a completely enumerated small-alphabet '
+    'argument space + parsed .sln/.proj/.bfg_uuid files across real configure/regenerate histories',
+    'All argument lists over {a, space, tab, ", \\} up to the stated lengths are joined/quoted by '
+    'the real bfg9000.shell.windows functions and parsed back by an independent implementation of '
+    'parse_cmdline (pre- and post-2008 rules); Exec attributes of really generated .proj files '
+    'are decoded layer by layer; solution histories are checked for well-formed XML, unique and '
+    'stable GUIDs and dangling references; duplicate project names must be refused.',
+    'Trusted: vf/ref/msvcrt_argv.py (self-tested on the MSDN table). No MSBuild/Windows process '
+    'is ever run: only the generated files and the quoting API are observed.',
+    'DESIGN.md §2 C20')
+
 NOT_APPLICABLE = {}
 
 ALL = ['C%02d' % i for i in range(1, 21)]
